@@ -1,6 +1,8 @@
 #!/usr/bin/env python3
 import subprocess, sys, os, json, re, time
-WT='/var/tmp/wt-c04f'
+WT=os.environ.get('C04_WT','/var/tmp/wt-c04r')
+LOGDIR=os.environ.get('C04_MUTLOG','/var/tmp/c04r2/mut')
+os.makedirs(LOGDIR, exist_ok=True)
 ENV=dict(os.environ, GOFLAGS='-mod=mod', GOPROXY='off', GOSUMDB='off', GOTOOLCHAIN='local')
 def sh(cmd, cwd=None, timeout=3000, env=ENV):
     p=subprocess.run(cmd, shell=True, cwd=cwd, env=env, stdout=subprocess.PIPE, stderr=subprocess.STDOUT, text=True, timeout=timeout)
@@ -98,6 +100,92 @@ M={
 				i.metrics.Request.Add(1)
 				i.gun.Shoot(ammo)''')],
 }
+
+# ---- round 2: kinds not covered above
+M.update({
+ 'n01-overdue-units-mixed': [(W,'''		w.lastNow = time.Now()
+		w.overdueDuration = w.lastNow.Sub(next)
+		return true''','''		w.lastNow = time.Now()
+		w.overdueDuration = w.lastNow.Sub(next) / time.Millisecond
+		return true'''),(W,'return w.overdueDuration >= MaxOverdueDuration','return w.overdueDuration >= MaxOverdueDuration/time.Millisecond')],
+ 'n02-singleton-discard-sample': [(S,'''func DiscardedShootSample() *Sample {
+	sample := &Sample{
+		timeStamp: time.Now(),
+		tags:      DiscardedShootTag,
+	}
+	sample.SetUserNet(DiscardedShootCodeError)
+
+	return sample
+}''','''var discardedShootSample = func() *Sample {
+	sample := &Sample{tags: DiscardedShootTag}
+	sample.SetUserNet(DiscardedShootCodeError)
+	return sample
+}()
+
+// DiscardedShootSample returns the shared sample of a discarded shoot (no allocation per discard).
+func DiscardedShootSample() *Sample {
+	discardedShootSample.timeStamp = time.Now()
+	return discardedShootSample
+}''')],
+ 'n03-no-discard-for-per-instance-rps': [(E,'			discardOverflow: p.DiscardOverflow,\n','			discardOverflow: p.DiscardOverflow && !p.RPSPerInstance,\n')],
+ 'n04-schedule-sharing-inverted': [(E,'	if p.RPSPerInstance {\n		return p.NewRPSSchedule, nil','	if !p.RPSPerInstance {\n		return p.NewRPSSchedule, nil')],
+ 'n05-overdue-rounded-to-seconds': [(W,'''		w.overdueDuration = w.lastNow.Sub(next)
+		return true''','''		w.overdueDuration = w.lastNow.Sub(next).Round(time.Second)
+		return true''')],
+ 'n06-first-shot-of-an-instance-never-discarded': [(I,'''	waiter := coreutil.NewWaiter(i.schedule)
+''','''	waiter := coreutil.NewWaiter(i.schedule)
+	first := true
+'''),(I,'''			if !i.discardOverflow || !waiter.IsSlowDown(ctx) {''','''			warm := first
+			first = false
+			if !i.discardOverflow || warm || !waiter.IsSlowDown(ctx) {''')],
+ 'n07-last-token-never-discarded': [(I,'if !i.discardOverflow || !waiter.IsSlowDown(ctx) {','if !i.discardOverflow || i.schedule.Left() == 0 || !waiter.IsSlowDown(ctx) {')],
+ 'n08-no-default-for-stdin-config': [(C,'if pools, ok := v.Get("pools").([]any); ok {','if pools, ok := v.Get("pools").([]any); ok && !useStdinConfig {')],
+ 'n09-discard-reported-and-shot': [(I,'''				i.aggregator.Report(netsample.DiscardedShootSample())
+''','''				i.aggregator.Report(netsample.DiscardedShootSample())
+				i.gun.Shoot(ammo)
+''')],
+ 'n10-default-only-for-yaml-files': [(C,'if pools, ok := v.Get("pools").([]any); ok {','if pools, ok := v.Get("pools").([]any); ok && strings.HasSuffix(v.ConfigFileUsed(), ".yaml") {')],
+ 'h03-harmless-reset-hoisted-to-top-of-wait': [(W,'''	select {
+	case <-ctx.Done():
+		w.overdueDuration = 0
+		return false
+	default:
+	}
+	next, ok := w.sched.Next()
+	if !ok {
+		w.overdueDuration = 0
+		return false
+	}''','''	w.overdueDuration = 0
+	select {
+	case <-ctx.Done():
+		return false
+	default:
+	}
+	next, ok := w.sched.Next()
+	if !ok {
+		return false
+	}'''),(W,'''	w.overdueDuration = 0
+	// Lazy init.''','''	// Lazy init.''')],
+ 'h04-harmless-now-local-and-renamed': [(W,'''		w.lastNow = time.Now()
+		w.overdueDuration = w.lastNow.Sub(next)
+		return true''','''		now := time.Now()
+		w.lastNow = now
+		w.overdueDuration = now.Sub(next)
+		return true'''),(W,'''	w.lastNow = time.Now()
+	waitFor = next.Sub(w.lastNow)
+	if waitFor <= 0 {
+		w.overdueDuration = 0 - waitFor
+		return true
+	}''','''	w.lastNow = time.Now()
+	left := next.Sub(w.lastNow)
+	if left <= 0 {
+		w.overdueDuration = -left
+		return true
+	}
+	waitFor = left''')],
+ 'h05-harmless-slow-local-after-wait': [(I,'''			if !i.discardOverflow || !waiter.IsSlowDown(ctx) {''','''			slow := waiter.IsSlowDown(ctx)
+			if !i.discardOverflow || !slow {''')],
+})
 PK={W:'./core/coreutil/...',I:'./core/engine/...',C:'./cli/...',S:'./core/aggregator/...',E:'./core/engine/...'}
 def main():
     names=sys.argv[2:] or sorted(M)
@@ -115,7 +203,7 @@ def main():
         rt,ot=sh('go test -count=1 '+' '.join(pk)+' 2>&1 | tail -8', cwd=WT, timeout=1200)
         gotest='pass' if ('FAIL' not in ot and 'panic' not in ot) else 'FAIL'
         t1=time.time()
-        rc2,o2=sh('VERIF_REPO=%s ./check C04 --tier %s 2>&1 | tee /var/tmp/c04/mut/%s.log | grep "^VIOLATION\\|tier="' % (WT,tier,n), cwd='/verif', timeout=3000)
+        rc2,o2=sh('VERIF_REPO=%s ./check C04 --tier %s 2>&1 | tee %s/%s.log | grep "^VIOLATION\\|tier="' % (WT,tier,LOGDIR,n), cwd='/verif', timeout=3000)
         viol=[l for l in o2.split('\n') if l.startswith('VIOLATION')]
         detail=''
         for v in viol:
